@@ -39,6 +39,22 @@ func init() {
 				}
 				return ""
 			}
+			if strings.HasPrefix(line, "meta.entropy") {
+				// C19 wants two encryptions of one value to differ; it does not say how many random bytes are drawn, nor that the
+				// stored nonce IS the bytes drawn (it may be derived from more of them). What would endanger the property is an
+				// encryption that SUCCEEDS although the source of randomness failed before a nonce's worth of bytes arrived (the
+				// model's "err"), or one that succeeds with a nonce that is not random at all (all zero). A refusal is always fine.
+				if strings.HasPrefix(g, "ok") && strings.HasPrefix(m, "err") {
+					return "go=ok model=err"
+				}
+				if g == "ok "+strings.Repeat("00", 24) {
+					return "go=ok with an all-zero nonce"
+				}
+				if g == "short-stored-value" {
+					return "go=short-stored-value"
+				}
+				return ""
+			}
 			if g != m {
 				return "go=" + strings.Fields(g + " -")[0] + " model=" + strings.Fields(m + " -")[0]
 			}
